@@ -59,9 +59,19 @@ def make_group(name, nover, ndef, explicit, tmpl, generic, cls=None):
     return fs
 
 
-def build_lib(name, groups, lang="c++", wraps=("c", "fortran", "python", "lua"), namespace=None, fmt=None):
+def build_lib(name, groups, lang="c++", wraps=("c", "fortran", "python", "lua"), namespace=None, fmt=None, interleave=False):
     funcs = []
     classes = []
+    if interleave:
+        # the members of an overload set need not be adjacent in the declaration list: round-robin over the
+        # names (the relative order inside each set, which the numbering depends on, is kept)
+        rr_ = []
+        gs = [list(g) for g in groups]
+        while any(gs):
+            for g in gs:
+                if g:
+                    rr_.append([g.pop(0)])
+        groups = rr_
     for g in groups:
         for f in g:
             f.setdefault("shape", "c08")
@@ -268,7 +278,7 @@ def main(rec):
     r = common.rng("c08")
     rec.rule = ("one C++ name = overload set size 1..3 x trailing defaults 0..2 on the first overload x suffix policy "
                 "{none, function_suffix, default_arg_suffix} x {no template, 2 instantiations} x {no fortran_generic, 2 entries "
-                "with/without explicit suffix} x {free function, class method}; exhaustive over this product (quick: each "
+                "with/without explicit suffix} x {free function, class method} x {overload set adjacent / interleaved with other names in the declaration list}; exhaustive over this product (quick: each "
                 "combination once, 6 names per library), libraries also vary namespace and C_prefix; distinct_nontrivial = "
                 "distinct callable signatures whose C and Fortran names were compared with the model")
     rec.assumptions = ["naming model vf/libgen/libs.py:assign_names written from docs/reference.rst (C_name_template, F_name_impl_template, "
@@ -296,7 +306,7 @@ def main(rec):
         fmt = [{}, {"C_prefix": "ZZ_"}][k % 2]
         wraps = [("c", "fortran"), ("c", "fortran", "python"), ("c", "fortran", "python", "lua")][k % 3]
         # python/lua cannot wrap templates/generics the same way; names there are checked for duplicates only
-        cases.append({"lib": build_lib("n%d" % k, groups, "c++", wraps, namespace=ns, fmt=fmt)})
+        cases.append({"lib": build_lib("n%d" % k, groups, "c++", wraps, namespace=ns, fmt=fmt, interleave=(k % 4 >= 2))})
     # two overloaded function templates with the same instantiation list
     tt = [F("ttname", "int", [P("t", "val", "ArgType")], template=["int", "double"], fid="tt#0"),
           F("ttname", "int", [P("t", "val", "ArgType"), P("b", "val", "int")], template=["int", "double"], fid="tt#1")]
@@ -305,7 +315,7 @@ def main(rec):
         for k in range(60):
             groups = [make_group("g%dname" % gi, *r.choice(combos)[:5], cls=r.choice([None, "K0", "K1"])) for gi in range(r.randint(2, 8))]
             groups = [g for g in groups if not (any(f.get("template") for f in g) and any(f.get("cls") for f in g))]
-            cases.append({"lib": build_lib("r%d" % k, groups, "c++", ("c", "fortran"), namespace=r.choice([None, "outer"]))})
+            cases.append({"lib": build_lib("r%d" % k, groups, "c++", ("c", "fortran"), namespace=r.choice([None, "outer"]), interleave=r.random() < 0.5)})
     res = pool.run_cases("vf.checks.c08", cases, func="run_library", timeout=1800)
     for c, rr in zip(cases, res):
         if "stats" not in rr:
